@@ -57,12 +57,10 @@ func ckksConfigs(tier string) []ckksConf {
 			}
 			add("s45-prec53", []int{55, 45, 45}, []int{55}, 45, 0)
 			add("s45-prec128", []int{55, 45, 45}, []int{55}, 45, 128)
-			add("s80-prec80", []int{60, 60, 60, 60}, []int{60}, 80, 0)
-			add("s80-prec256", []int{60, 60, 60, 60}, []int{60}, 80, 256)
-			if logN == 4 || tier == "thorough" {
-				add("s80-prec53", []int{60, 60, 60, 60}, []int{60}, 80, 53)
-				add("s45-prec64", []int{55, 45, 45}, []int{55}, 45, 64)
-			}
+			add("s80-prec80", []int{60, 60, 60, 60}, []int{60, 60}, 80, 0)
+			add("s80-prec256", []int{60, 60, 60, 60}, []int{60, 60}, 80, 256)
+			add("s80-prec53", []int{60, 60, 60, 60}, []int{60, 60}, 80, 53)
+			add("s45-prec64", []int{55, 45, 45}, []int{55}, 45, 64)
 		}
 	}
 	return r
@@ -705,7 +703,16 @@ func ckksCoeffScenario(cf ckksConf) engine.Scenario {
 					o[i] = &bignum.Complex{new(big.Float).SetPrec(256), new(big.Float).SetPrec(256)}
 				}
 			}
-			err, pan := uni.Try(func() error { return w.ecd.Decode(pt, out) })
+			// DecodePublic in the coefficient domain: the doc comment is silent and the implementation does not round
+			// there; what can be judged is that the published value stays within half a unit of 2^-logprec of the
+			// plain decoding (true with or without rounding). Every other output goes through plain Decode.
+			public := outTy == tyF64 || outTy == tyBigC
+			err, pan := uni.Try(func() error {
+				if public {
+					return w.ecd.DecodePublic(pt, out, 12)
+				}
+				return w.ecd.Decode(pt, out)
+			})
 			if pan != nil || err != nil {
 				failD(c, mk("decode-failed"), "%s out=%s: err=%v panic=%v", desc, tyNames[outTy], err, pan)
 				return
@@ -722,6 +729,10 @@ func ckksCoeffScenario(cf ckksConf) engine.Scenario {
 			}
 			for k := range exact {
 				tol := newF().Mul(newF().Abs(exact[k]), rel)
+				if public {
+					tol.Add(tol, pow2(-13))
+					c.Cover("ckks-coeff-public", "judged-closeness-only")
+				}
 				if d := newF().Sub(got[k].re, exact[k]); d.Abs(d).Cmp(tol) > 0 || got[k].im.Sign() != 0 {
 					failD(c, mk("decode-value"), "%s out=%s: coefficient %d decodes to (%s,%s), exact %s", desc, tyNames[outTy], k, got[k].re.Text('g', 25), got[k].im.Text('g', 5), exact[k].Text('g', 25))
 					return
@@ -878,72 +889,110 @@ func ckksFFTScenario(cf ckksConf) engine.Scenario {
 	}}
 }
 
-// embedScenario: Embed into ring.Poly / ringqp.Poly under the NTT and Montgomery flags: Q and P parts carry the
-// same small integer polynomial as the plain Encode.
+// embedScenario: Embed into ringqp.Poly (Q part at every level; P part absent, at its top level or at level 0)
+// under the NTT and Montgomery flags, at a small and at the default scale: the Q part equals the plain Encode and
+// the P part carries the residues of the *same integer polynomial* (the centred lift of the Q part, valid because
+// scale*max|v| stays below Q_level/4), prime by prime.
 func ckksEmbedScenario(cf ckksConf) engine.Scenario {
 	name := "ckks/" + cf.name + "/embed"
 	return engine.Scenario{Name: name, Bound: -1, Fn: func(c *engine.Chooser) {
 		w := getCkksWorld(cf)
 		logSlots := w.maxL - c.Choose(w.maxL+1, "logSlots")
-		level := w.L - c.Choose(2, "level")*w.L
+		level := w.L - c.Choose(w.L+1, "level")
 		mont := c.Bool("montgomery")
-		withP := c.Choose(2, "P") == 0
+		pMode := c.Choose(3, "P") // 0: P at its top level, 1: no P, 2: P at level 0
+		ntt := c.Choose(2, "ntt") == 0
+		bigScale := c.Bool("default-scale")
 		inTy := c.Choose(4, "inType")
 		n := 1 << logSlots
 		if cf.rt == ring.ConjugateInvariant && n == 1 && logSlots != w.maxL {
 			c.Skip("covered by the single-slot finding of the shape scenario")
 			return
 		}
-		c.Cover("ckks-embed", fmt.Sprintf("mont=%v P=%v", mont, withP))
-		scale := pow2(30) // small enough for level 0: the coefficients must not wrap modulo Q_0 nor modulo P
-		v, _ := family(famMixed, n, scale, uni.QAtLevel(w.p.Parameters, level))
+		if !ntt && logSlots != w.maxL {
+			c.Skip("covered by the sparse-and-not-NTT finding of the shape scenario")
+			return
+		}
+		scale := pow2(30)
+		if bigScale {
+			scale = pow2(cf.logScale)
+		}
+		Q := uni.QAtLevel(w.p.Parameters, level)
+		v, _ := family(famMixed, n, scale, Q)
+		lim := newF().SetInt(Q)
+		lim.Quo(lim, newF().SetInt64(4))
+		if newF().Mul(newF().SetFloat64(float64(n)/4+2), scale).Cmp(lim) > 0 {
+			c.Skip("scale too large for this level")
+			return
+		}
+		levelP := -1
+		switch pMode {
+		case 0:
+			levelP = w.p.MaxLevelP()
+		case 2:
+			levelP = 0
+			if w.p.MaxLevelP() == 0 {
+				c.Skip("parameter set has a single auxiliary prime")
+				return
+			}
+		}
+		c.Cover("ckks-embed", fmt.Sprintf("mont=%v levelP=%d/%d ntt=%v", mont, levelP, w.p.MaxLevelP(), ntt))
 		ref0 := ckks.NewPlaintext(w.p, level)
 		ref0.LogDimensions.Cols = logSlots
 		ref0.Scale = rlwe.NewScale(scale)
+		w.poison()
 		if err := w.ecd.Encode(typedInput(inTy, v), ref0); err != nil {
 			panic(err)
 		}
 		want := uni.PolyCoeffs(w.p.RingQ(), ref0.Value, level, true, false)
-		Q := uni.QAtLevel(w.p.Parameters, level)
 		md := *ref0.MetaData
 		md.IsMontgomery = mont
+		md.IsNTT = ntt
 		rq := w.p.RingQ().AtLevel(level)
 		qp := ringqp.Poly{Q: rq.NewPoly()}
-		if withP {
-			qp.P = w.p.RingP().NewPoly()
+		dirty(qp.Q, w.p.Q())
+		if levelP >= 0 {
+			qp.P = w.p.RingP().AtLevel(levelP).NewPoly()
+			dirty(qp.P, w.p.P())
 		}
+		desc := fmt.Sprintf("logSlots=%d level=%d mont=%v levelP=%d ntt=%v scale=2^%d in=%s", logSlots, level, mont, levelP, ntt, map[bool]int{false: 30, true: cf.logScale}[bigScale], tyNames[inTy])
+		w.poison()
 		err, pan := uni.Try(func() error { return w.ecd.Embed(typedInput(inTy, v), &md, qp) })
 		if pan != nil || err != nil {
-			failD(c, "C07/ckks/Embed/ringqp/error", "logSlots=%d level=%d mont=%v P=%v: err=%v panic=%v", logSlots, level, mont, withP, err, pan)
+			failD(c, "C07/ckks/Embed/ringqp/error", "%s: err=%v panic=%v", desc, err, pan)
 			return
 		}
-		gotQ := uni.PolyCoeffs(w.p.RingQ(), qp.Q, level, true, mont)
+		gotQ := uni.PolyCoeffs(w.p.RingQ(), qp.Q, level, ntt, mont)
 		for k := range want {
 			if gotQ[k].Cmp(want[k]) != 0 {
-				failD(c, "C07/ckks/Embed/ringqp/Q-part", "logSlots=%d level=%d mont=%v: coefficient %d is %v, Encode gives %v", logSlots, level, mont, k, gotQ[k], want[k])
+				failD(c, "C07/ckks/Embed/ringqp/Q-part", "%s: coefficient %d is %v, Encode gives %v", desc, k, gotQ[k], want[k])
 				return
 			}
 		}
-		if withP {
-			lp := w.p.MaxLevelP()
-			P := ref.Prod(w.p.P()[:lp+1])
-			gotP := uni.PolyCoeffs(w.p.RingP(), qp.P, lp, true, mont)
+		if levelP >= 0 {
+			P := ref.Prod(w.p.P()[:levelP+1])
+			gotP := uni.PolyCoeffs(w.p.RingP(), qp.P, levelP, ntt, mont)
 			for k := range want {
-				if ref.Center(gotP[k], P).Cmp(ref.Center(want[k], Q)) != 0 {
-					failD(c, "C07/ckks/Embed/ringqp/P-part", "logSlots=%d level=%d mont=%v: coefficient %d of the P part is %v, the Q part holds %v", logSlots, level, mont, k, ref.Center(gotP[k], P), ref.Center(want[k], Q))
+				exp := new(big.Int).Mod(ref.Center(want[k], Q), P)
+				if gotP[k].Cmp(exp) != 0 {
+					failD(c, "C07/ckks/Embed/ringqp/P-part", "%s: coefficient %d of the P part is %v mod P, the integer held by the Q part is %v (= %v mod P)", desc, k, gotP[k], ref.Center(want[k], Q), exp)
 					return
 				}
 			}
 		}
-		c.Outcome(name, logSlots, level, mont, withP, inTy)
+		c.Outcome(name, desc)
 		c.Count(2)
 	}}
 }
 
+// quick tier: the complete CKKS product (LogDimensions x level x NTT x input type x length x scale x value family,
+// every output type, plain and public decoding) up to this ring degree; thorough: every ring degree.
+const fullProductLogN = 5
+
 func ckksScenarios(tier string) []engine.Scenario {
 	var scs []engine.Scenario
 	for _, cf := range ckksConfigs(tier) {
-		scs = append(scs, ckksShapeScenario(cf, tier == "thorough"), ckksValueScenario(cf), ckksCoeffScenario(cf), ckksProductScenario(cf), ckksFFTScenario(cf), ckksEmbedScenario(cf))
+		scs = append(scs, ckksShapeScenario(cf, tier == "thorough" || cf.logN <= fullProductLogN), ckksValueScenario(cf), ckksCoeffScenario(cf), ckksProductScenario(cf), ckksFFTScenario(cf), ckksEmbedScenario(cf))
 	}
 	return scs
 }
@@ -951,7 +1000,7 @@ func ckksScenarios(tier string) []engine.Scenario {
 func expect(tier string) []string {
 	e := []string{
 		"bgv-domain=batched", "bgv-domain=coeff", "bgv-type=int64", "bgv-type=uint64", "bgv-level=0", "bgv-len=0", "bgv-len=1", "bgv-len=full",
-		"bgv-scale=1", "bgv-scale=t-1", "bgv-scale=(t+1)/2", "bgv-scale=q1 mod t", "bgv-gap=1", "bgv-gap=2", "bgv-gap=4",
+		"bgv-scale=1", "bgv-scale=t-1", "bgv-scale=(t+1)/2", "bgv-scale=q1 mod t", "bgv-gap=1", "bgv-gap=2", "bgv-gap=4", "bgv-gap=8", "bgv-every-scale=all-units", "bgv-every-scale=spread", "ckks-coeff-public=judged-closeness-only",
 		"bgv-exhaust=single-slot", "bgv-exhaust=alphabet3", "bgv-product=ringT", "bgv-product=ringQ",
 		"ckks-logn=4", "ckks-logn=5", "ckks-logn=6", "ckks-ring=standard", "ckks-ring=conjugate-invariant", "ckks-path=float64", "ckks-path=arbitrary",
 		"ckks-slots=full", "ckks-slots=1", "ckks-slots=sparse", "ckks-level=0", "ckks-ntt=true", "ckks-ntt=false", "ckks-domain=coeff",
